@@ -8,6 +8,7 @@ from fractions import Fraction
 
 from harness import common as C
 from harness import fw, progen, tracecmp
+from harness import c01_helpers as H
 from harness import pyast_wire as PW
 from harness import stmt_wire as SW
 
@@ -35,6 +36,116 @@ WITNESSES = {
     "F-C01-loop-local-reinit": {
         "src": progen.HEADER + "w = 0\nwhile True:\n    if w == 0:\n        z = 5\n    w = w + 1\n    mon.write(z)\n", "loops": 2},
 }
+
+
+WITNESSES.update(H.WITNESSES)
+
+HELPER_FEATURES = [("tuple",), ("tuple", "float"), ("tuple", "div"), ("tuple", "continue")]
+LABELS = ("int", "float", "bool", "String")
+
+
+def merge_correspondence(ctx):
+    """Lang.FnRet.merge_ret (extracted) vs the real _merge_return_types on EVERY label list of length <= 5 over the
+    four scalar labels, with and without the has_void flag (2730 cases)."""
+    exe = ctx.exes.get("C01_stmt")
+    if exe is None:
+        return {"merge_cases": 0}
+    import itertools
+    cases = [(list(ls), hv) for n in range(6) for ls in itertools.product(LABELS, repeat=n) for hv in (False, True)]
+    impl = C.run_impl("c01_fn_impl.py", {"merge": [[ls, hv] for ls, hv in cases]})
+    outs = C.run_model(exe, [[2, [SW.TY["str" if l == "String" else l] for l in ls], hv] for ls, hv in cases])
+    st = collections.Counter()
+    for (ls, hv), r, o in zip(cases, impl["merge"], outs):
+        m = {"ty": SW.TYN[o[1]]} if (isinstance(o, list) and o and o[0] == 0) else {"void": True} if o == [1] else {"reject": "ValueError"} if o == [2] else {"undecodable": o}
+        st["void" if "void" in r else "reject" if "reject" in r else r.get("ty")] += 1
+        if m != r:
+            ctx.disagree("fn-ret: _merge_return_types differs from Lang.FnRet.merge_ret", {"labels": ls, "has_void": hv}, m, r)
+    return {"merge_cases": len(cases), "merge_results": dict(st)}
+
+
+def model_merge(ctx, labels, has_void):
+    exe = ctx.exes.get("C01_stmt")
+    o = C.run_model(exe, [[2, [SW.TY["str" if l == "String" else l] for l in labels], bool(has_void)]])[0]
+    return SW.TYN[o[1]] if (isinstance(o, list) and o and o[0] == 0) else "void" if o == [1] else None
+
+
+def helper_unit(ctx, thorough):
+    """helper functions: (1) return-type merge model vs real function, exhaustively; (2) generated + hand-written helper
+    programs: firmware trace vs CPython trace (oracle); (3) for every helper the parser builds: number of labels handed to
+    _merge_return_types = number of `return e` statements of the generated body, emitted return type = cpp(merge_ret labels)."""
+    rng = ctx.rng
+    out = merge_correspondence(ctx)
+    progs, srcs = [], []
+    for b in H.CORPUS:
+        progs.append(None)
+        srcs.append(progen.HEADER + b)
+    n = 420 if thorough else 44
+    gstats = collections.Counter()
+    sites = collections.Counter()
+    for i in range(n):
+        g = H.HGen(rng, HELPER_FEATURES[i % len(HELPER_FEATURES)])
+        p = g.program(with_main=rng.random() < 0.8)
+        p["input"] = gen_inputs(rng)
+        progs.append(p)
+        srcs.append(progen.render(p))
+        for k in ("kinds", "fx", "shapes"):
+            for a, b in p["stats"][k].items():
+                gstats[f"{k}:{a}"] += b
+        gstats["helpers"] += p["stats"]["helpers"]
+        gstats["return-statements"] += p["stats"]["returns"]
+        sites.update(p["stats"]["sites"])
+    inputs = [p["input"] if p else "ar 14 300\nar 15 2\ndr 4 1\n" for p in progs]
+    loops = [(rng.choice([1, 2, 3]) if "while True:" in s else 0) for s in srcs]
+    res = run_pair(srcs, inputs, loops)
+    stats = collections.Counter()
+    for s, p, i, l, r in zip(srcs, progs, inputs, loops, res):
+        if r["status"] in ("DIFF", "equal") and leaves_int32(s, i, l):
+            r["status"] = "outside-guard:int32/float32-range"
+        stats[r["status"]] += 1
+        case = {"script": s, "input": i, "loops": l, "features": ["helpers"] + ([] if p else ["corpus"]),
+                "helpers": p["helpers"] if p else None}
+        if r["status"] == "DIFF":
+            ctx.fail("firmware trace differs from CPython trace (helper functions)", case, r["py"],
+                     {"first_difference": r["diff"], "firmware": r["fw"]}, key="helper-trace-diff")
+        elif r["status"] == "nocompile":
+            ctx.fail("accepted script with helper functions does not compile", case, "compilable C++", r["log"], key="helper-nocompile")
+        elif r["status"] == "fw-crash":
+            ctx.fail("firmware crashed (helper functions)", case, "rc 0", r, key="helper-fw-crash")
+        elif r["status"] == "rejected" and r["exc"] != "ValueError":      # a ValueError is the "reject" half of reject-or-preserve
+            ctx.fail(f"transpiler raised {r['exc']} (not ValueError)", case, "ValueError or success", r, key="helper-reject-kind")
+    # (3) return types of the helpers the parser built
+    fst = collections.Counter()
+    if ctx.exes.get("C01_stmt") is not None:
+        gen = [(s, p) for s, p in zip(srcs, progs) if p is not None]
+        impl = C.run_impl("c01_fn_impl.py", {"scripts": [s for s, _ in gen]})
+        want = []
+        for (s, p), r in zip(gen, impl["scripts"]):
+            if not r["ok"]:
+                fst["rejected"] += 1
+                continue
+            nret = {f[0]: H.count_value_returns(f[2]) for f in p["funcs"]}
+            for ps in r["parses"]:
+                m = ps["merge"]
+                case = {"script": s, "helper": ps["name"]}
+                if m is None or ps["merges"] != 1:
+                    ctx.disagree("fn-ret: _parse_function did not call _merge_return_types exactly once", case, 1, ps["merges"])
+                    continue
+                if len(m["labels"]) != nret.get(ps["name"], -1):
+                    ctx.disagree("fn-ret: labels handed to _merge_return_types != `return e` statements of the helper", case, nret.get(ps["name"]), m["labels"])
+                    continue
+                want.append((case, m, ps))
+        outs = C.run_model(ctx.exes["C01_stmt"], [[2, [SW.TY["str" if l == "String" else l] for l in m["labels"]], bool(m["has_void"])] for _, m, _ in want])
+        for (case, m, ps), o in zip(want, outs):
+            mt = SW.TYN[o[1]] if (isinstance(o, list) and o and o[0] == 0) else "void" if o == [1] else None
+            fst[f"{'+'.join(sorted(set(m['labels']))) or 'none'}->{ps['return_type']}"] += 1
+            if mt is None or impl["cpp"].get(mt) != ps["return_type"]:
+                ctx.disagree("fn-ret: emitted return type of a helper differs from Lang.FnRet.ret_type of its return statements", case,
+                             {"labels": m["labels"], "model": mt}, ps["return_type"])
+    out.update({"helper_programs": len(srcs), "helper_programs_by_status": dict(stats), "generated": dict(gstats), "call_sites": dict(sites),
+                "helper_return_types": dict(fst), "loop_passes": dict(collections.Counter(loops)),
+                "nontrivial": len({s for s, r in zip(srcs, res) if r["status"] == "equal" and len(r["py"]) >= 3}),
+                "samples": [srcs[len(H.CORPUS)][len(progen.HEADER):]] if len(srcs) > len(H.CORPUS) else []})
+    return out
 
 
 # hand-written boundary programs (run first, every tier): the break guard of the main loop,
@@ -656,6 +767,7 @@ def run_unit(ctx: C.Ctx):
             if r["status"] in ("DIFF", "nocompile"):
                 ctx.known(f"{i}: {listed[i]['what']}")
     ir = ir_correspondence(ctx, progs, loops, res)
+    hu = helper_unit(ctx, thorough)
     kinds = collections.Counter()
 
     def count(body):
@@ -684,18 +796,18 @@ def run_unit(ctx: C.Ctx):
                     "loop_passes": dict(collections.Counter(loops)), "with_main_loop": sum(1 for p in progs if p["main"] is not None),
                     "constant_inputs": sum(1 for p in progs if len(const_inputs(p["input"])) == 3),
                     "continue_by_innermost_loop": dict(conts), "programs_with_continue_by_status": dict(cont_progs),
-                    "fixed_witnesses_replayed_first": n_fixed}
+                    "fixed_witnesses_replayed_first": n_fixed, "helper_functions": hu}
     ctx.coverage.setdefault("distribution", {})["C01_stmt"] = distribution
     ctx.assumptions += [
         "C01_stmt_preserve_partial is proved modulo a shared opaque expression semantics and assumes SemFacts.sem_facts: the type label the parser infers for an expression is the type of its value (expression layer / C02); it is about the IR semantics Lang.StmtSem.cexec, which is tied to the emitted C++ only by the executable correspondence (extracted transl+cexec vs firmware trace)",
         "C int = Z and device float = Q in the models: runs that leave the 32-bit / binary32 range are detected on the CPython side and excluded, not blamed"]
     return {
         "distribution": distribution, "outside_guard_samples": outside[:3],
-        "theorems": "C01_no_silent_drop, C01_break_guard, C01_continue_guard, C01_continue_translation (all programs); C01_stmt_preserve_partial (simulation inside StmtGuard.guard_ok, modulo the shared expression semantics + SemFacts.sem_facts); C01_stmt_{range_bound,retype,promotion_reinit,loop_local_reinit}_refuted (witnesses = listed findings)",
+        "theorems": "C01_no_silent_drop, C01_break_guard, C01_continue_guard, C01_continue_translation (all programs); C01_stmt_preserve_partial (simulation inside StmtGuard.guard_ok, modulo the shared expression semantics + SemFacts.sem_facts); C01_stmt_{range_bound,retype,promotion_reinit,loop_local_reinit}_refuted (witnesses = listed findings); helper functions (Lang/FnRet.v): C01_return_type_covers, C01_bool_helper_only_truth_values, C01_number_or_truth_helper_is_int (all label lists), C01_helper_call_value_preserved (every body with any number of return statements: same state, events and number on both sides), C01_helper_call_serial_preserved_partial (guard FnRet.uniform_kind), C01_helper_mixed_return_refuted (finding F-C01-helper-mixed-return); tuple assignment (Lang/TupleOrder.v): C01_tuple_rhs_evaluated_in_source_order, C01_tuple_declaration_evaluated_in_source_order (the emitted statements evaluate e0..en once each, in source order, before the first target is written)",
         "guard": "StmtGuard.guard_ok: every variable first assigned at top level of the setup part (global) or at top level of the `while True:` body before any read in that body (loop() local); later assignments keep the type label; tuple assignment either as the declaration of distinct new names at top level of the setup part, or (n >= 1) to names that are all declared already with unchanged types (swap / rotation / parallel assignment through block-local temporaries `__tmp_assign_k`, at any nesting level and in the main loop; mixed new/declared tuples and tuple declarations inside the main loop stay outside); declared names are not spelled like a temporary; range() bound int-labelled, independent of the loop variable and of names the body assigns; loop variables fresh, unassigned, read only inside their loop; consistent expression ids.  Oracle guard (dynamic): no computed int leaves 32 bits (CPython run with every expression instrumented); a script whose deviation the extracted model itself predicts (outside guard_ok) is not blamed.  `continue` is inside the guard (any placement the parser accepts: in for / while loops, under nested ifs, in the body of the main loop where it is `return;` from loop())",
-        "unmodelled": ["helper functions, lists, try/except, device objects (firmware-vs-CPython oracle only)", "hoisting (promotion: a name first assigned inside an if/while/for block) is in Lang.Transl and in the executable correspondence (IR and both traces), but outside the simulation theorem's guard; the three refuted witnesses (hoisted-decl-reinit, loop-local-reinit, retype) mark where the unchanged code stops preserving behaviour", "tuples mixing new and declared names, tuple declarations inside the main loop (loop() locals initialised from temporaries)", "expression translation (unit C01_expr): the simulation is modulo a shared opaque expression semantics", "16-bit int of a real AVR"],
-        "evaluations": len(progs) + len(lsrcs) + ir["ir_cases"] + ir.get("exec_cases", 0), "list_programs_by_status": dict(lstats), "programs_by_status": dict(stats), "ir_correspondence": ir,
-        "distinct_nontrivial": len({s for s, r in zip(srcs, res) if r["status"] == "equal" and len(r["py"]) >= 3}),
+        "unmodelled": ["helper functions: the return type and the returned value are modelled (Lang/FnRet.v, tied to _merge_return_types exhaustively and to the emitted return type of every generated helper); parameters / per-signature variants, locals of a helper and the call sites inside expressions are covered by the firmware-vs-CPython oracle only (generated helpers: several return statements, effects, calls in every expression position)", "side effects of expressions: the simulation theorem's expression semantics is pure; the ORDER of effectful right-hand sides of a tuple assignment is proved at the level of the emitted node list (C01_tuple_rhs_evaluated_in_source_order) and observed on the firmware by the oracle; C++ operand / argument evaluation order inside one expression is outside every model (finding F-C01-eval-order)", "lists, try/except, device objects (firmware-vs-CPython oracle only)", "hoisting (promotion: a name first assigned inside an if/while/for block) is in Lang.Transl and in the executable correspondence (IR and both traces), but outside the simulation theorem's guard; the three refuted witnesses (hoisted-decl-reinit, loop-local-reinit, retype) mark where the unchanged code stops preserving behaviour", "tuples mixing new and declared names, tuple declarations inside the main loop (loop() locals initialised from temporaries)", "expression translation (unit C01_expr): the simulation is modulo a shared opaque expression semantics", "16-bit int of a real AVR"],
+        "evaluations": len(progs) + len(lsrcs) + ir["ir_cases"] + ir.get("exec_cases", 0) + hu.get("merge_cases", 0) + hu["helper_programs"], "list_programs_by_status": dict(lstats), "programs_by_status": dict(stats), "ir_correspondence": ir,
+        "distinct_nontrivial": len({s for s, r in zip(srcs, res) if r["status"] == "equal" and len(r["py"]) >= 3}) + hu["nontrivial"],
         "samples": [srcs[0][len(progen.HEADER):], srcs[-1][len(progen.HEADER):]],
-        "rule": "the witnesses of repaired defects first (F-C01-continue-dropped), then 20 hand-written boundary programs (break guard, nested break, empty range, elif chain, shadowing loop variable, tuple declarations reading re-assigned variables, tuple assignments to declared names - float swap, rotation, Fibonacci step, swaps in the main loop -, promotion out of for/while/if; `continue` in for-range, in while, under nested ifs, in an else arm, in the inner of two loops, in the main loop body directly / under nested ifs / inside a for loop of the main loop, unconditional with dead code after it, misplaced = rejected) + seeded programs from harness/progen.py over 8 feature sets (core ints; +floats; +helper functions; +tuple/swap; all; first assignment inside branches; `continue`; `continue` + all), N in 0..3 loop passes, scripted analog/digital inputs (half of them constant per pin); every program: firmware trace vs CPython trace (oracle); programs without helper functions: IR of Lang.Transl.transl vs IR of the real parser; those with constant inputs additionally: extracted pexec vs CPython trace and extracted transl+cexec vs firmware trace (Lang.StmtExec), and the number of them inside the guard of C01_stmt_preserve_partial is recorded; non-trivial = both sides ran and the common trace has >= 3 events",
+        "rule": "the witnesses of repaired defects first (F-C01-continue-dropped), then 20 hand-written boundary programs (break guard, nested break, empty range, elif chain, shadowing loop variable, tuple declarations reading re-assigned variables, tuple assignments to declared names - float swap, rotation, Fibonacci step, swaps in the main loop -, promotion out of for/while/if; `continue` in for-range, in while, under nested ifs, in an else arm, in the inner of two loops, in the main loop body directly / under nested ifs / inside a for loop of the main loop, unconditional with dead code after it, misplaced = rejected) + seeded programs from harness/progen.py over 8 feature sets (core ints; +floats; +helper functions; +tuple/swap; all; first assignment inside branches; `continue`; `continue` + all), N in 0..3 loop passes, scripted analog/digital inputs (half of them constant per pin); every program: firmware trace vs CPython trace (oracle); programs without helper functions: IR of Lang.Transl.transl vs IR of the real parser; those with constant inputs additionally: extracted pexec vs CPython trace and extracted transl+cexec vs firmware trace (Lang.StmtExec), and the number of them inside the guard of C01_stmt_preserve_partial is recorded; non-trivial = both sides ran and the common trace has >= 3 events; HELPER FUNCTIONS (harness/c01_helpers.py): 12 hand-written helper scripts (False-or-number and number-or-comparison helpers, tuple assignment from reporting / global-updating / sleeping / pin-driving helpers at module level, in the main loop and to function locals, early return out of loops, recursion, bare return, two call signatures, calls in while/if/elif conditions, and/or operands, conditional-expression arms, f-string fields) + seeded programs with 2-5 helpers each (kinds int / bool / bool+int mixed / float / void; shapes guard chain, early return in for and while loops, nested ifs, single return; effects serial / delay / pin / global counter) called from every expression position; oracle = firmware trace vs CPython trace; ties = Lang.FnRet.merge_ret vs _merge_return_types on all 2730 label lists of length <= 5 x has_void, and per parsed helper: labels handed to _merge_return_types = `return e` statements of the generated body, emitted return type = cpp(merge_ret labels)",
     }
